@@ -151,3 +151,62 @@ def dtype_inheritance_sites(ev, data_roots):
                     s = suspects.pop(t[1].key())
                     out.append((s[0], s[1] + f" and then receives computed values ({str(e.target)[:60]} = ...)"))
     return out
+
+
+def append_counts(body, name):
+    """Possible numbers of ``name.append(...)`` / ``name += [...]`` executed on one pass through a loop body.
+
+    Returns a set of ints (one per path class), or None when the body has constructs this walk does not model
+    (nested loops / try / with that touch ``name``).  ``continue`` ends the pass; ``break``/``return``/``raise`` paths are ignored
+    (they do not complete an iteration that is followed by another).
+    """
+    import ast as _ast
+
+    def touches(node):
+        return any(isinstance(n, _ast.Name) and n.id == name for n in _ast.walk(node))
+
+    def is_append(st):
+        if isinstance(st, _ast.Expr) and isinstance(st.value, _ast.Call) and isinstance(st.value.func, _ast.Attribute) \
+                and st.value.func.attr == "append" and isinstance(st.value.func.value, _ast.Name) and st.value.func.value.id == name:
+            return True
+        if isinstance(st, _ast.AugAssign) and isinstance(st.target, _ast.Name) and st.target.id == name and isinstance(st.op, _ast.Add) \
+                and isinstance(st.value, _ast.List) and len(st.value.elts) == 1:
+            return True
+        return False
+
+    def walk(stmts, counts):
+        """counts: set of running counts of live paths -> (live counts, finished counts)"""
+        done = set()
+        live = set(counts)
+        for st in stmts:
+            if not live:
+                break
+            if is_append(st):
+                live = {c + 1 for c in live}
+            elif isinstance(st, _ast.If):
+                l1, d1 = walk(st.body, live)
+                l2, d2 = walk(st.orelse, live)
+                if l1 is None or l2 is None:
+                    return None, None
+                live = l1 | l2
+                done |= d1 | d2
+            elif isinstance(st, _ast.Continue):
+                done |= live
+                live = set()
+            elif isinstance(st, (_ast.Break, _ast.Return, _ast.Raise)):
+                live = set()
+            elif isinstance(st, (_ast.For, _ast.While, _ast.Try, _ast.With)):
+                if touches(st):
+                    return None, None
+            elif touches(st) and not isinstance(st, (_ast.Assign, _ast.Expr, _ast.AugAssign, _ast.AnnAssign)):
+                return None, None
+            elif isinstance(st, (_ast.Expr, _ast.Assign, _ast.AugAssign)) and touches(st):
+                # other uses of the list (extend, insert, slicing) change its length in ways this walk does not count
+                src = _ast.unparse(st)
+                if any(w in src for w in (f"{name}.extend", f"{name}.insert", f"{name}.pop", f"{name} +=", f"{name} =", f"del {name}")):
+                    return None, None
+        return live, done
+    live, done = walk(body, {0})
+    if live is None:
+        return None
+    return live | done
